@@ -81,6 +81,9 @@ func parseCases(tier string, seed uint64, rep *Report) []pcase {
 		add(append([]byte("1."), b...), "enum-ctx")
 		add(append([]byte("1e"), b...), "enum-ctx")
 		add(append([]byte("\xef\xbb\xbf"), b...), "enum-ctx")
+		for _, pre := range []string{"[1\n\n", "1\n\n", "[\n\n", "[1\n ", "{\"a\":1\n\n", "[\"a\"\n\n", "[1 \n\n", "[1.5\n\n", "[1e2\n\n", "[0\n\n"} {
+			add(append([]byte(pre), b...), "enum-nl")
+		}
 		for _, w := range []string{"tr", "fal", "nu", "t", "fals"} {
 			add(append([]byte(w), b...), "enum-ctx")
 		}
